@@ -170,6 +170,9 @@ let model_of_lhs (l : string list) : string =
   | ["G"; n] ->
     (* a binary item of n payload bytes (n > 65535: 3 length bytes), all zero *)
     let n = int_of_string n in
+    (* 16 MB frames go through the extracted (non tail-recursive) list functions: a large minor
+       heap keeps the number of minor collections (each scans the deep stack) small *)
+    if n > 1000000 then Gc.set { (Gc.get ()) with Gc.minor_heap_size = 64 * 1024 * 1024; Gc.space_overhead = 400 };
     let zero = ztab.(0) in
     let payload = List.init n (fun _ -> zero) in
     let body = ztab.(0x23) :: ztab.((n lsr 16) land 255) :: ztab.((n lsr 8) land 255) :: ztab.(n land 255) :: payload in
